@@ -984,6 +984,10 @@ fn group_to_fields(
 ///
 /// See https://github.com/anweiss/cddl/issues/640
 fn deduplicate_field_names(fields: &mut [RustField]) {
+  // Every name in use, original or generated: a generated `base_N` must not
+  // coincide with a name some other field already has (`a, a_1, a`).
+  let mut taken: std::collections::HashSet<String> =
+    fields.iter().map(|f| f.name.clone()).collect();
   let mut seen: std::collections::HashMap<String, usize> = std::collections::HashMap::new();
 
   for field in fields.iter_mut() {
@@ -992,7 +996,13 @@ fn deduplicate_field_names(fields: &mut [RustField]) {
     *count += 1;
 
     if *count > 1 {
-      let unique = format!("{}_{}", base, *count - 1);
+      let mut n = *count - 1;
+      let mut unique = format!("{}_{}", base, n);
+      while !taken.insert(unique.clone()) {
+        n += 1;
+        unique = format!("{}_{}", base, n);
+      }
+      *count = n + 1;
       if field.original_name == base {
         field.original_name = unique.clone();
       }
